@@ -31,7 +31,8 @@ impl Typstyle {
 
         let attrs = AttrStore::new(node.get()); // Here we only compute the attributes of that subtree.
         let printer = PrettyPrinter::new(self.config.clone(), attrs);
-        let ctx = Context::default().with_mode(mode);
+        // What follows the node is not known here: a parenthesised literal keeps its parentheses (`#(1)em`).
+        let ctx = Context::default().with_mode(mode).with_glued(true);
         let doc = if let Some(markup) = node.cast() {
             printer.convert_markup(ctx, markup)
         } else if let Some(expr) = node.cast() {
